@@ -107,6 +107,8 @@ def evaluate(case, stt):
         known = "kf_case_scenario_vs_case_value"
     elif gen_ssb.case_jumps_backward_or_into_chain(c):
         known = "kf_case_jumps_backward"
+    elif gen_ssb.case_op_is_jump_target(c):
+        known = "kf_case_op_is_jump_target"
     elif gen_ssb.degenerate_branch_in_loop(c):
         known = "kf_degenerate_branch_in_loop"
     elif gen_ssb.call_on_cycle(c):
